@@ -7,7 +7,8 @@ pub struct D(pub u8);
 impl Drop for D { fn drop(&mut self) { unsafe { DROPS[self.0 as usize] += 1; } } }
 pub struct Zd;                      // zero-sized with a destructor, counted in slot 5
 impl Drop for Zd { fn drop(&mut self) { unsafe { DROPS[5] += 1; } } }
-ecs_world! { ecs_archetype!(ArchD, D, Zd); }
+pub struct P(pub u32);             // plain data, no drop glue
+ecs_world! { ecs_archetype!(ArchD, D, Zd); ecs_archetype!(ArchM, D, P); }   // ArchM mixes a Drop component with a plain one
 
 // ---- C04 (bounded: 3 creations, symbolic destroy choice and key kind, failed create_within_capacity, world drop):
 // every component value moved into the world is dropped exactly once or handed back
@@ -18,7 +19,8 @@ fn world_drop_accounting() {
     kani::assume(kill < 3);
     let dynamic: bool = kani::any();
     {
-        let mut w = EcsWorld::with_capacity(EcsWorldCapacity { arch_d: 2 });
+        let mut w = EcsWorld::with_capacity(EcsWorldCapacity { arch_d: 2, arch_m: 1 });
+        let _m = w.create::<ArchM>((D(4), P(7)));          // stays alive until the world is dropped
         let e0 = w.create::<ArchD>((D(0), Zd));
         let e1 = w.create::<ArchD>((D(1), Zd));
         // full: the failed creation hands its argument back untouched
@@ -27,7 +29,7 @@ fn world_drop_accounting() {
             Err(back) => { unsafe { assert!(DROPS[2] == 0); } drop(back); unsafe { assert!(DROPS[2] == 1 && DROPS[5] == 1); } }
         }
         let e3 = w.create::<ArchD>((D(3), Zd));   // grows
-        unsafe { assert!(DROPS[0] == 0 && DROPS[1] == 0 && DROPS[3] == 0); }
+        unsafe { assert!(DROPS[0] == 0 && DROPS[1] == 0 && DROPS[3] == 0 && DROPS[4] == 0); }
         let target = if kill == 0 { e0 } else if kill == 1 { e1 } else { e3 };
         let tid = if kill == 0 { 0 } else if kill == 1 { 1 } else { 3 };
         if dynamic {
@@ -43,5 +45,5 @@ fn world_drop_accounting() {
         for i in [0usize, 1, 3] { if i != tid { unsafe { assert!(DROPS[i] == 0); } } }
     }
     // world dropped: everything exactly once
-    unsafe { assert!(DROPS[0] == 1 && DROPS[1] == 1 && DROPS[2] == 1 && DROPS[3] == 1 && DROPS[4] == 0 && DROPS[5] == 4); }
+    unsafe { assert!(DROPS[0] == 1 && DROPS[1] == 1 && DROPS[2] == 1 && DROPS[3] == 1 && DROPS[4] == 1 && DROPS[5] == 4); }
 }
